@@ -221,10 +221,13 @@ func (rs *bodyStream) Read(p []byte) (int, error) {
 		// the data on stream may be incomplete
 		if err == io.EOF {
 			if rs.offset != rs.contentLength && rs.contentLength != -2 {
+				// the peer went away in the middle of the body: the stream stays unfinished,
+				// so that releasing it fails and the connection is not taken for reusable
 				err = io.ErrUnexpectedEOF
+			} else {
+				// ensure that skipRest works fine
+				rs.offset = rs.contentLength
 			}
-			// ensure that skipRest works fine
-			rs.offset = rs.contentLength
 		}
 		return n, err
 	}
